@@ -22,6 +22,26 @@ COMMON_ASSUMPTIONS = [
 ]
 
 
+EXHAUSTIVE_SUBSPACE = (
+    "controlled scheduler (harness/hub/control.go): a step is taken only when every client thread is blocked at the gate or finished; events = "
+    "every RPC and the start of every transaction (Begin, i.e. the fetch of its start ts; so both begin orders of a pair are inside one tree and only "
+    "multisets of programs are enumerated); any other timestamp fetch happens inside the step that leads to it. "
+    "DFS with replay-from-scratch over ALL choice sequences, programs from the alphabet {rw(opt|pess,k) = get k; [lock k]; set k; commit, "
+    "lw(k) = lock k; set k; commit, sr(opt|pess,k) = [lock k]; set k; rollback, w2(opt | pess primary a | pess primary b) = set a; set b; commit, r2 = get a; get b} "
+    "(pessimistic locks are no-wait; key a holds a committed value, key b none). quick: all pairs over one key on one region (profile full: async commit); "
+    "thorough, profile mock: A all pairs of the two-key alphabet (13 programs) on one region, B on two regions (a | b) the one-key programs on a against "
+    "w2(opt), w2(pess,a), w2(pess,b), r2 and r2 against those four, C the triples {lw(a), sr(pess,a), sr(pess,a)} and {sr(pess,a)}^3 (every other triple of the alphabet exceeds the limit of 20000 schedules); profile full: A with async commit and with 1PC. "
+    "NOT enumerated: two two-key writers against each other on two regions (> 40000 schedules per pair; and the optimistic writer's two parallel prewrite "
+    "batches race for the client's shared lock resolver, a choice inside one client that the RPC scheduler does not control). "
+    "Reductions, both stated: (1) stutter pruning: a request is not offered while the same client has already executed a request with the same label against "
+    "the same store state (dump of both keys) — a retry of a blocked read/prewrite/lock while nobody else moved; the pruned schedules differ from an "
+    "enumerated one only by such repeated requests with identical answers. If nothing else is enabled and the repeats belong to ONE client they are executed "
+    "without being a decision point (forced_stutter_steps); (2) livelock cut: if the repeats belong to several clients (mutual blocking until a retry budget "
+    "runs out; which budget runs out first depends on the random back-off jitter, not on the schedule) the schedule ends there (livelock_cuts; the prefix is judged, "
+    "no quiesce oracles). Retry-budget exhaustion by starvation is therefore not covered. Labels blank the wall-clock dependent request fields (lock ttl, max_commit_ts). "
+    "A combination over the schedule limit or with a lost branch (a replay that kept diverging) is listed and makes `exhaustive` false.")
+
+
 def impl_side(c, ops_file, impl_file, max_report=6):
     """events raised by the harness itself: hang, mockpanic (implementation side FAIL …)"""
     ops = open(ops_file).read().splitlines()
@@ -77,6 +97,17 @@ def run_hub(pid, a, rule, assumptions=()):
         c.cov["input_distribution" + key] = {k: v for k, v in st.items() if not k.startswith("api:")}
         c.cov["api_calls" + key] = {k[4:]: v for k, v in st.items() if k.startswith("api:")}
         c.cov["programs"] = c.cov.get("programs", 0) + st.get("scenarios", 0)
+        exh = {k[4:]: v for k, v in st.items() if k.startswith("exh:")}
+        if exh:
+            # the enumerated sub-space (hubrun/exh.go): exhaustive only if no combination was cut, lost or diverged for good
+            complete = exh.get("incomplete-combos", 0) == 0 and exh.get("lost-branch", 0) == 0
+            c.cov["exhaustive_enumeration" + key] = {"exhaustive": bool(complete), "schedules": exh.get("schedules", 0), "combinations": exh.get("combos", 0),
+                                          "incomplete_combinations": {k[len("incomplete:"):]: v for k, v in exh.items() if k.startswith("incomplete:")},
+                                          "replay_divergences_retried": exh.get("divergence", 0), "late_arrivals_added": exh.get("late-arrivals", 0),
+                                          "lost_branches": exh.get("lost-branch", 0), "stutter_pruned_steps": exh.get("stutter-pruned", 0),
+                                          "forced_stutter_steps": exh.get("forced-stutter", 0), "livelock_cuts": exh.get("livelock-cut", 0),
+                                          "by_family": {k: v for k, v in exh.items() if k.endswith(":schedules") or k.endswith(":combos")},
+                                          "sub_space": EXHAUSTIVE_SUBSPACE}
         m = c.run_model(exe, ops, tag=prof)
         if m:
             c.diff_judge(ops, m)
